@@ -315,8 +315,41 @@ pub fn run(ctx: &Ctx) -> (Stats, Report) {
     }
     st.section("speller_generated", &mut mark);
 
+    // short years are completed from the clock (C18), but a short year written with a minus sign
+    // denotes no date under any clock: every value x 1..3 digits x four picture shapes x three types
+    {
+        let mut k = 0u64;
+        for n in 1..=3usize {
+            let y = "Y".repeat(n);
+            for val in 0..10u32.pow(n as u32).min(200) {
+                let shapes = [
+                    (y.clone(), format!("-{val}")),
+                    (format!("{y}-MM-DD"), format!("-{val}-03-05")),
+                    (format!("DD.MM.{y}"), format!("05.03.-{val}")),
+                    (format!("{y} MON DD HH24:MI:SS"), format!("-{val} Mar 05 10:20:30")),
+                    (format!("MM/DD/{y}"), format!("3/5/-{val:0w$}", w = n)),
+                ];
+                for (si, (pic, text)) in shapes.iter().enumerate() {
+                    for kind in [Kind::Date, Kind::Ts, Kind::Ora] {
+                        if kind == Kind::Date && si == 3 {
+                            continue;
+                        }
+                        st.evaluations += 1;
+                        st.nontrivial_enum += 1;
+                        st.class("neg-minus-sign-on-a-short-year");
+                        k += 1;
+                        if let Err(m) = check_parse(kind, pic, text, None) {
+                            st.fail(k, case_of(kind, pic, text, None), m);
+                        }
+                    }
+                }
+            }
+        }
+    }
+    st.section("signed_short_years", &mut mark);
+
     let rep = Report {
-        rule: "E1 exhaustive: every (year, day-of-year 0..=367) pair through three pictures; every date through six pictures (padded/unpadded numbers, month and weekday names in random letter case, weekday number, day of year, month name under MM, leading '+', doubled blanks) plus one disagreeing weekday per date; every second of the day in 24-hour and 12-hour+meridian notation in both field orders (also inside pre-1970 / range-end timestamps and Oracle dates); 7-digit fractions through FF7 (all in thorough, strided in quick) and the fraction carry chain of each type. E2: the constructive speller (never parses): type, value, lenient picture (field permutations, separators, name styles, optional weekday / day-of-year fields), per-field spelling choices (padded/unpadded, '+', extra blanks, letter case, month names for MM, 1..9 fraction digits with half-up rounding and carry, omitted trailing time fields) and, for negative cases, exactly one out-of-domain component (24 perturbation kinds). Oracle: the value is known by construction (Ok(value) required); a perturbed text must be rejected with any error. Non-trivial = the text differs from the canonical rendering, or a negative case; distinct by (type, picture, text).".into(),
+        rule: "E1 exhaustive: every (year, day-of-year 0..=367) pair through three pictures; every date through six pictures (padded/unpadded numbers, month and weekday names in random letter case, weekday number, day of year, month name under MM, leading '+', doubled blanks) plus one disagreeing weekday per date; every second of the day in 24-hour and 12-hour+meridian notation in both field orders (also inside pre-1970 / range-end timestamps and Oracle dates); 7-digit fractions through FF7 (all in thorough, strided in quick) and the fraction carry chain of each type. E2: the constructive speller (never parses): type, value, lenient picture (field permutations, separators, name styles, optional weekday / day-of-year fields), per-field spelling choices (padded/unpadded, '+', extra blanks, letter case, month names for MM, 1..9 fraction digits with half-up rounding and carry, omitted trailing time fields) and, for negative cases, exactly one out-of-domain component (24 perturbation kinds). Plus: short years (1..3 digits, every value up to 199) written with a minus sign in five picture shapes must be rejected. Oracle: the value is known by construction (Ok(value) required); a perturbed text must be rejected with any error. Non-trivial = the text differs from the canonical rendering, or a negative case; distinct by (type, picture, text).".into(),
         assumptions: vec![
             "sound-domain restrictions of the generator (blanks only; numbers padded when a digit follows; DAY full name / DY abbreviation; dotted meridian for dotted pictures; intervals keep the leading field first with the sign, omit nothing; a spelled 12-hour field always has its meridian spelled)".into(),
             "an omitted 12-hour field means 12 o'clock (12 AM = 00:00 / 12 PM = 12:00 with a spelled meridian, hour 12 without one)".into(),
